@@ -22,9 +22,6 @@ func VerifCodecTxBlockPath(height int) string {
 	return (&TxRepository{}).buildPath(height)
 }
 
-// VerifCodecReadPeer is readPeer.
-func VerifCodecReadPeer(r io.Reader, version int32) (Peer, error) { return readPeer(r, version) }
-
 // VerifCodecPeers returns the peers in list order (as loaded).
 func (repo *PeerRepository) VerifCodecPeers() []Peer {
 	repo.mutex.Lock()
